@@ -165,7 +165,13 @@ def build_torch():
         _triple=lambda x: (x, x, x) if not isinstance(x, tuple) else x,
         _quadruple=lambda x: (x, x, x, x) if not isinstance(x, tuple) else x,
         _ntuple=lambda n, name=None: (lambda x: tuple([x] * n) if not isinstance(x, tuple) else x)))
-    nn_modules = mm('torch.nn.modules', dict(utils=nn_utils, Module=st.Module))
+    class _Loss(st.Module):
+        """torch.nn.modules.loss._Loss: a Module that stores the reduction mode"""
+        def __init__(self, size_average=None, reduce=None, reduction='mean'):
+            super().__init__()
+            self.reduction = reduction
+    nn_loss = mm('torch.nn.modules.loss', dict(_Loss=_Loss))
+    nn_modules = mm('torch.nn.modules', dict(utils=nn_utils, Module=st.Module, loss=nn_loss))
     functional = mm('torch.nn.functional', dict(normalize=st._normalize, pad=st.pad, softplus=st.softplus))
     nn = mm('torch.nn', dict(Module=st.Module, Parameter=st.Parameter, modules=nn_modules, functional=functional))
     t.nn = nn
